@@ -21,3 +21,15 @@ pub fn vx_user_visit<Fun, A, B, R>(f: &Fun, a: A, b: B, Tracked(w): Tracked<&mut
 pub fn vx_user_visit1<Fun, A, R>(f: &Fun, a: A, Tracked(w): Tracked<&mut World>) -> (r: R)
     ensures *final(w) == (World { trace: old(w).trace.push(Ev::UserStart), ..*old(w) }),
 { unimplemented!() }
+
+impl<'a, N> NodeRefIter<'a, N> {
+    /// Iterator::map on daggy's node_references(): the closure is called once per node, in index order, with
+    /// (NodeIndex(i), &weights[i])
+    #[verifier::external_body]
+    pub fn map<U, Fun: FnMut((NodeIndex<FnIdInner>, &'a N)) -> U>(self, f: Fun) -> (r: VxIter<U>)
+        requires self.pos() == 0, forall|p: (NodeIndex<FnIdInner>, &'a N)| #[trigger] f.requires((p,)),
+        ensures
+            r.rest().len() == self.len(),
+            forall|i: int| 0 <= i < self.len() ==> f.ensures(((nid(i), &self.ws()[i]),), #[trigger] r.rest()[i]),
+    { unimplemented!() }
+}
